@@ -36,6 +36,10 @@ class TLCResult(object):
         m = re.search(r"(\d+) states generated, (\d+) distinct states found", out)
         self.generated = int(m.group(1)) if m else 0
         self.distinct = int(m.group(2)) if m else 0
+        ms = re.findall(r"Progress: (\d+) states checked, (\d+) traces generated", out)
+        self.sim_traces = 0
+        if ms and not m:                      # simulation mode: states visited along the generated behaviours
+            self.generated, self.sim_traces = int(ms[-1][0]), int(ms[-1][1])
         m = re.search(r"The depth of the complete state graph search is (\d+)", out)
         self.depth = int(m.group(1)) if m else 0
         self.violated = re.findall(r"Invariant (\S+) is violated", out)
@@ -152,7 +156,7 @@ class RunCtx(object):
         self.cov["states"] += r.distinct
         self.cov["transitions"] += r.generated
         self.cov["model_runs"].append({"module": module, "cfg": cfg or module + ".cfg", "distinct_states": r.distinct,
-                                       "states_generated": r.generated, "depth": r.depth, "wall_s": round(r.wall, 1),
+                                       "states_generated": r.generated, "simulated_behaviours": r.sim_traces, "depth": r.depth, "wall_s": round(r.wall, 1),
                                        "violated": r.violated})
         bad = [v for v in r.violated if v not in expect_violated]
         if bad or r.errors and not r.violated:
